@@ -45,6 +45,9 @@ const (
 	OpSExt    // k = new width
 	OpExtract // k = low bit ; width = result width
 	OpUF      // uninterpreted function application: name, args list in a,b,c (<=3) -> width w
+	OpConstArr // array (BitVec 64 -> BitVec w) with every element = k
+	OpStore    // a=array b=index(64) c=value(w)
+	OpSelect   // a=array b=index(64) -> BitVec w
 )
 
 var opNames = [...]string{
@@ -64,6 +67,8 @@ type Term struct {
 	name    string // OpVar, OpUF
 	id      int32
 	heavy   bool // mentions mul/div (routed to the integer back end too)
+	arr     bool // sort is (Array (_ BitVec 64) (_ BitVec w))
+	hasArr  bool // mentions an array term (not sent to the bv-as-int back end)
 }
 
 func (t *Term) IsConst() bool { return t.op == OpConst }
@@ -117,6 +122,12 @@ func (c *Ctx) mk(op Op, w uint8, k uint64, a, b, cc *Term, name string) *Term {
 	}
 	if (a != nil && a.heavy) || (b != nil && b.heavy) || (cc != nil && cc.heavy) {
 		t.heavy = true
+	}
+	if op == OpConstArr || op == OpStore {
+		t.arr = true
+	}
+	if t.arr || (a != nil && a.hasArr) || (b != nil && b.hasArr) || (cc != nil && cc.hasArr) {
+		t.hasArr = true
 	}
 	c.tab[key] = t
 	c.terms = append(c.terms, t)
@@ -629,6 +640,59 @@ func (c *Ctx) BoolToBV(b *Term, w int) *Term {
 	return c.Ite(b, c.BV(1, w), c.BV(0, w))
 }
 
+// ---- arrays (index BitVec 64) ----
+
+func (c *Ctx) ConstArr(k uint64, w int) *Term {
+	return c.mk(OpConstArr, uint8(w), k&mask(uint8(w)), nil, nil, nil, "")
+}
+
+func (c *Ctx) Store(a, idx, v *Term) *Term {
+	if !a.arr || idx.w != 64 || v.w != a.w {
+		panic("Store: bad sorts")
+	}
+	return c.mk(OpStore, a.w, 0, a, idx, v, "")
+}
+
+func (c *Ctx) Select(a, idx *Term) *Term {
+	if !a.arr || idx.w != 64 {
+		panic("Select: bad sorts")
+	}
+	for {
+		switch a.op {
+		case OpConstArr:
+			return c.BV(a.k, int(a.w))
+		case OpStore:
+			if a.b == idx {
+				return a.c
+			}
+			if a.b.IsConst() && idx.IsConst() {
+				// distinct constants: look through
+				a = a.a
+				continue
+			}
+		}
+		break
+	}
+	return c.mk(OpSelect, a.w, 0, a, idx, nil, "")
+}
+
+// evalSelect evaluates select(a, i) under a model by walking the store chain.
+func (c *Ctx) evalSelect(a *Term, i uint64, m Model) uint64 {
+	for {
+		switch a.op {
+		case OpConstArr:
+			return a.k
+		case OpStore:
+			if c.Eval(a.b, m) == i {
+				return c.Eval(a.c, m)
+			}
+			a = a.a
+		default:
+			panic("evalSelect: not an array term")
+		}
+	}
+}
+
 // ---- evaluation under a model ----
 
 type Model map[string]uint64
@@ -724,6 +788,10 @@ func (c *Ctx) Eval(t *Term, m Model) uint64 {
 		v = uint64(sext(c.Eval(t.a, m), t.a.w)) & mask(t.w)
 	case OpExtract:
 		v = (c.Eval(t.a, m) >> t.k) & mask(t.w)
+	case OpSelect:
+		v = c.evalSelect(t.a, c.Eval(t.b, m), m)
+	case OpConstArr, OpStore:
+		panic("Eval of array-sorted term")
 	case OpUF:
 		var args []uint64
 		for _, a := range []*Term{t.a, t.b, t.c} {
@@ -766,6 +834,13 @@ func maskOrBool(w uint8) uint64 {
 }
 
 // ---- SMT-LIB printing ----
+
+func sortOf(t *Term) string {
+	if t.arr {
+		return fmt.Sprintf("(Array (_ BitVec 64) (_ BitVec %d))", t.w)
+	}
+	return sortStr(t.w)
+}
 
 func sortStr(w uint8) string {
 	if w == 0 {
@@ -811,6 +886,12 @@ func body(t *Term) string {
 		return fmt.Sprintf("((_ sign_extend %d) %s)", int(t.w)-int(t.a.w), ref(t.a))
 	case OpExtract:
 		return fmt.Sprintf("((_ extract %d %d) %s)", int(t.k)+int(t.w)-1, t.k, ref(t.a))
+	case OpConstArr:
+		return fmt.Sprintf("((as const (Array (_ BitVec 64) (_ BitVec %d))) %s)", t.w, constStr(&Term{op: OpConst, w: t.w, k: t.k}))
+	case OpStore:
+		return fmt.Sprintf("(store %s %s %s)", ref(t.a), ref(t.b), ref(t.c))
+	case OpSelect:
+		return fmt.Sprintf("(select %s %s)", ref(t.a), ref(t.b))
 	case OpUF:
 		s := "(" + t.name
 		for _, a := range []*Term{t.a, t.b, t.c} {
@@ -858,6 +939,12 @@ func (t *Term) str(sb *strings.Builder, depth int) {
 		fmt.Fprintf(sb, "extract[%d+%d]", t.k, t.w)
 	case OpUF:
 		sb.WriteString(t.name)
+	case OpConstArr:
+		fmt.Fprintf(sb, "constarr %d", t.k)
+	case OpStore:
+		sb.WriteString("store")
+	case OpSelect:
+		sb.WriteString("select")
 	default:
 		sb.WriteString(opNames[t.op])
 	}
